@@ -89,15 +89,15 @@ theorem scanStr_esc (hq : ExpPrec.stringQuoteDoubled = true) (s : List Char) (r 
 inductive Lexes : List Char → List Tok → Prop
   | done (w : List Char) : w.all isWsC = true → Lexes w []
   | tok (w cs : List Char) (t : Tok) (r : List Char) (ts : List Tok) :
-      w.all isWsC = true → lexTok cs = some (t, r) → Lexes r ts → Lexes (w ++ cs) (t :: ts)
+      w.all isWsC = true → lexTok cs = some (t, r) → r.length < cs.length → Lexes r ts → Lexes (w ++ cs) (t :: ts)
 
 theorem Lexes.ws_prepend {r : List Char} {ts : List Tok} (h : Lexes r ts) (w : List Char) (hw : w.all isWsC = true) :
     Lexes (w ++ r) ts := by
   cases h with
   | done w' hw' => exact Lexes.done _ (by simp [List.all_append, hw, hw'])
-  | tok w' cs t r' ts' hw' hl hr =>
+  | tok w' cs t r' ts' hw' hl hlen hr =>
     rw [← List.append_assoc]
-    exact Lexes.tok _ cs t r' ts' (by simp [List.all_append, hw, hw']) hl hr
+    exact Lexes.tok _ cs t r' ts' (by simp [List.all_append, hw, hw']) hl hlen hr
 
 def StartOK : Option Tok → List Char → Prop
   | none, _ => True
@@ -131,7 +131,7 @@ theorem LexInv.ws {T TS lt} (h : LexInv T TS lt) (W : List Char) (hW : W.all isW
 /-- one token read from the start of a text -/
 def ReadsTok (t : Tok) : Prop := ∀ rest, NoGlue t rest → lexTok (sp t ++ rest) = some (t, rest)
 
-theorem LexInv.tok {T TS lt} (h : LexInv T TS lt) (t : Tok) (hread : ReadsTok t)
+theorem LexInv.tok {T TS lt} (h : LexInv T TS lt) (t : Tok) (hread : ReadsTok t) (hne : sp t ≠ [])
     (hadj : ∀ t0, lt = some t0 → ∀ rest, NoGlue t0 (sp t ++ rest)) : LexInv (T ++ sp t) (TS ++ [t]) (some t) := by
   intro rest ts hs hl
   rw [List.append_assoc, List.append_assoc]
@@ -139,7 +139,11 @@ theorem LexInv.tok {T TS lt} (h : LexInv T TS lt) (t : Tok) (hread : ReadsTok t)
   · cases lt with
     | none => trivial
     | some t0 => exact hadj t0 rfl rest
-  · have := Lexes.tok [] (sp t ++ rest) t rest ts (by simp) (hread rest hs) hl
+  · have hlen : rest.length < (sp t ++ rest).length := by
+      cases hsp : sp t with
+      | nil => exact absurd hsp hne
+      | cons c r => simp; omega
+    have := Lexes.tok [] (sp t ++ rest) t rest ts (by simp) (hread rest hs) hlen hl
     simpa using this
 
 /-! ### every token the printer emits is read back (one token, any continuation that does not glue) -/
